@@ -83,7 +83,7 @@ TEXTS = {
     "C07": dict(technique="Lean 4 theorems (nullable analysis sound w.r.t. the runtime model; well-formed grammars terminate) + Lean model of the analysis and independent specification, differential against the real ast/builder code; kernel-checked witnesses",
                 design_ref="DESIGN.md §5 C07", engine="lean-mid",
                 level_text=("Consequence clause, kernel-checked for the runtime model (Proofs/Advance.lean, Proofs/WFTerm.lean): C07_nullable_sound — for every grammar, code environment, input and depth a successful evaluation never moves backwards and an expression that succeeds without consuming is nullable in the sense of the static analysis; "
-                            "C07_no_same_position_cycle_terminates — a grammar whose first graph (rule -> rules its body can invoke before consuming) has no cycle (ranking witness), with repetitions over non-nullable bodies and no throw/recover, terminates on every input from every state without any budget: the generated parser cannot recurse without bound. The hypothesis is decided by an executable checker whose verdict is proved sound (checkWFG_sound); "
+                            "C07_no_same_position_cycle_terminates — a grammar whose first graph (rule -> rules its body can invoke before consuming) has no cycle (ranking witness), with repetitions over non-nullable bodies and no throw/recover, terminates on every input from every state without any budget: the generated parser cannot recurse without bound. C07_spec_not_left_recursive_terminates: the same conclusion from the verdict of the independent specification the check judges the builder by (Mid.Spec.leftRec = false on the lowered grammar; Proofs/Bridge.lean, Proofs/Reach.lean: the specification's breadth-first closure is proved to be reachability and its nullable fixpoint a closed oracle). The hypothesis is decided by an executable checker whose verdict is proved sound (checkWFG_sound); "
                             "the check runs it on the generated runtime-termination cases (how many it accepts is in the evidence) and every such case is executed on the real runtime, where a crash or timeout is a violation. "
                             "Detection clause: the real analysis (ast.NullableVisit/InitialNames, builder.ComputeLeftRecursives, called in-process with chosen visiting orders) is compared node by node (every Nullable flag, first graph, left-recursive set, leader, verdict) with the Lean model Mid, "
                             "and its verdict with the independent Ford-style specification Mid.Spec.leftRec on generated grammars; every discrepancy is classified by which uncommitted repair of the model removes it (known findings D17, D18; D9 listed). "
@@ -101,7 +101,8 @@ TEXTS = {
                 level_note=RT_NOTE + " unicode.Is is modelled as membership in the range table passed in the case line; unicode.ToLower comes from the stream header."),
     "C08": dict(technique="Lean 4 theorem (left-recursive parsing terminates when every same-position cycle passes through a leader) + differential: real left-recursive parsers vs Lean model (full result) and vs the plain parser of the iterative twin grammar; Lean lemmas on the seed-growing loop",
                 design_ref="DESIGN.md §5 C08",
-                level_text=("TERMINATION, kernel-checked (C08_left_recursive_parse_terminates; Proofs/AdvanceLR.lean, Conv.lean, LRTerm.lean): left-recursion template, Memoize off, no budget; if the grammar has a closed nullability oracle, repetitions over non-nullable bodies, no throw/recover, and a ranking that decreases along every first-graph edge except those into leader rules (every same-position cycle passes through a leader), then Parse returns on every input for every code environment; with it C08_progress_with_seeds (no step back, nullable soundness, every seed respects progress, the table only grows). "
+                level_text=("MAIN CLAUSE, kernel-checked for a sub-class (C08_direct_left_recursion_is_iteration_partial; Proofs/LFree.lean, LRIter.lean): for A <- A t1/../A tn / b1/../bm whose operands reach no leader rule, with non-nullable ti, unique node ids, no throw/recover and pure code (Memoize off, no budget), whatever the seed-growing loop returns is what the iteration returns - the first base the ordinary parser (generated without left-recursion support) matches, extended greedily by the first tail it matches at the end of the match so far, value left-nested; failure iff no base matches. Operands that recurse into a leader (\"(\" Expr \")\"), indirect recursion, Memoize are NOT covered by the theorem and are compared by execution (iterative twins). "
+                            "TERMINATION, kernel-checked (C08_left_recursive_parse_terminates; Proofs/AdvanceLR.lean, Conv.lean, LRTerm.lean): left-recursion template, Memoize off, no budget; if the grammar has a closed nullability oracle, repetitions over non-nullable bodies, no throw/recover, and a ranking that decreases along every first-graph edge except those into leader rules (every same-position cycle passes through a leader), then Parse returns on every input for every code environment; with it C08_progress_with_seeds (no step back, nullable soundness, every seed respects progress, the table only grows). "
                             "The hypothesis is decided by an executable checker proved sound (checkLRWF_sound): the check asks it for every generated case (how many it accepts is in the evidence) and, on the BUILDER's side, verifies on generated grammars that the leader marks of builder.PrepareGrammar cover every cycle of its own first graph (a cycle without a leader is a concrete grammar whose parser recurses without bound: C08_cycle_without_leader_has_no_ranking). "
                             "Every generated left-recursive case (direct, indirect, nested towers; all 8 LeftRecursion template variants; Memoize on/off) is run on the real generated parser and on the Lean model and compared on the full result (values, errors, stores, block trace); "
                             "direct left recursion without predicates is additionally run as its iterative twin (b1/../bm)(a1/../an)* on the plain template, which must match exactly the same prefix. Kernel-checked lemmas on the loop of the model: a failing or non-extending growth attempt is dropped with errors and store restored, an extending one becomes the seed, "
